@@ -163,6 +163,7 @@ class Gen:
             raise Lost("%s is not a fn with a body" % path)
         # ---- split the block into sections
         contract, attrs, entry, loops, closures, replaces, nested = [], [], [], {}, {}, [], {}
+        sreplaces = []
         selfmut = False
         cur = contract
         k = 0
@@ -183,11 +184,25 @@ class Gen:
                     hdr = st[3:].split(None, 2)[2]
                     cur = []
                     closures[int(p[1])] = (hdr, cur)
-                elif p[0] == "replace":
-                    m = re.match(r"replace\s+(\d+)\s+/(.*)/\s*=>\s*/(.*)/\s*$", st[3:])
+                elif p[0] == "hint":
+                    # proof hint (an assert is checked, never assumed): inserted before the first match of the regex;
+                    # a lost anchor only drops the hint
+                    m = re.match(r"hint\s+/(.*)/\s*=>\s*(.*)$", st[3:])
+                    if not m:
+                        raise Lost("%s:%d: bad //@hint" % (rel, ln))
+                    replaces.append((-1, m.group(1), m.group(2), ln, True))
+                elif p[0] == "sreplace":
+                    # like rreplace, but on the signature text
+                    m = re.match(r"sreplace\s+(\d+)\s+/(.*)/\s*=>\s*/(.*)/\s*$", st[3:])
+                    if not m:
+                        raise Lost("%s:%d: bad //@sreplace" % (rel, ln))
+                    sreplaces.append((int(m.group(1)), m.group(2), m.group(3), ln))
+                elif p[0] in ("replace", "rreplace"):
+                    # replace: OLD is Rust text matched token-wise (whitespace-insensitive); rreplace: OLD is a regular expression
+                    m = re.match(r"r?replace\s+(\d+)\s+/(.*)/\s*=>\s*/(.*)/\s*$", st[3:])
                     if not m:
                         raise Lost("%s:%d: bad //@replace" % (rel, ln))
-                    replaces.append((int(m.group(1)), m.group(2), m.group(3), ln))
+                    replaces.append((int(m.group(1)), m.group(2), m.group(3), ln, p[0] == "rreplace"))
                 elif p[0] == "selfmut":
                     selfmut = True
                 elif p[0] == "nested":
@@ -211,6 +226,12 @@ class Gen:
             self.emit(a, kind="spec", file=rel, line=lineno)
         # ---- signature
         head = self.rewrite_signature(toks, it, o, selfmut)
+        for cnt, old, new, ln in sreplaces:
+            found = re.findall(old, head)
+            if len(found) != cnt:
+                raise Lost("%s (%s:%d): signature pattern /%s/ matched %d times, expected %d" % (path, rel, ln, old, len(found), cnt))
+            head = re.sub(old, new, head)
+            self.count("R6", cnt)
         self.emit_text(head.rstrip(), kind="repo", file=self.cur_src, line=line0, fn=path, part="signature")
         clauses = []
         section = None
@@ -610,10 +631,17 @@ class Gen:
                 s += "\x00"
             else:
                 s += c[0]
-        for cnt, old, new, ln in replaces:
-            toks_old = [re.escape(t.s) for t in tokenize(old) if t.k not in ("ws", "com")]
-            rx = re.compile(r"\s*".join(toks_old))
-            found = rx.findall(s)
+        def rx_of(old, is_rx):
+            if is_rx:
+                return re.compile(old)
+            return re.compile(r"\s*".join(re.escape(t.s) for t in tokenize(old) if t.k not in ("ws", "com")))
+
+        for cnt, old, new, ln, is_rx in replaces:
+            rx = rx_of(old, is_rx)
+            found = [m for m in rx.finditer(s)]
+            if cnt == -1:
+                self.count("hint" if found else "hint-dropped")
+                continue
             if len(found) != cnt:
                 raise Lost("%s (%s:%d): R6 pattern /%s/ matched %d times, expected %d" % (path, rel, ln, old, len(found), cnt))
             self.count("R6", cnt)
@@ -639,17 +667,21 @@ class Gen:
             for c in piece_orig[pi]:
                 cmap.extend([c[1]] * len(c[0]))
             txt = piece
-            for cnt, old, new, ln in replaces:
-                toks_old = [re.escape(t.s) for t in tokenize(old) if t.k not in ("ws", "com")]
-                rx = re.compile(r"\s*".join(toks_old))
+            for cnt, old, new, ln, is_rx in replaces:
+                rx = rx_of(old, is_rx)
+                pos = 0
                 while True:
-                    m = rx.search(txt)
+                    m = rx.search(txt, pos)
                     if not m:
                         break
+                    rep = m.expand(new) if is_rx else new
+                    if cnt == -1:
+                        rep = new + " " + m.group(0)
                     o = next((x for x in cmap[m.start():m.end()] if x is not None), None)
-                    txt = txt[:m.start()] + new + txt[m.end():]
-                    cmap = cmap[:m.start()] + [o] * len(new) + cmap[m.end():]
-                    if new and rx.search(new):
+                    txt = txt[:m.start()] + rep + txt[m.end():]
+                    cmap = cmap[:m.start()] + [o] * len(rep) + cmap[m.end():]
+                    pos = m.start() + len(rep)
+                    if cnt == -1:
                         break
             # re-chunk by line
             start = 0
